@@ -128,6 +128,7 @@ func loadProg(dir, goarch string, needDeps bool) (*Prog, error) {
 			recvNameOf[f.Name] = root.Decl.Recv.List[0].Names[0].Name
 		}
 	}
+	computeNewCode(p)
 	return p, nil
 }
 
